@@ -110,10 +110,12 @@ CHECKS['C08'] = {
 }
 
 CHECKS['C14'] = {
-    'jobs': {'quick': [J('c14_resolver.cpp', ['K=3', 'PROTO=0', 'SMALL'], wall=280, markers=(1, 2)), J('c14_resolver.cpp', ['K=2', 'PROTO=1'], wall=120, markers=(1, 2))],
+    'jobs': {'quick': [J('c14_resolver.cpp', ['K=3', 'PROTO=0', 'SMALL'], wall=280, markers=(1, 2)), J('c14_resolver.cpp', ['K=2', 'PROTO=1'], wall=120, markers=(1, 2)),
+                       J('c14_resolver.cpp', ['K=2', 'PROTO=0', 'EARLY'], wall=200, markers=(1, 2))],
              'thorough': [J('c14_resolver.cpp', ['K=4', 'PROTO=0'], wall=700, markers=(1, 2)), J('c14_resolver.cpp', ['K=3', 'PROTO=1'], wall=700, markers=(1, 2))]},
     'bounds': {'quick': 'K=3 operations from {resolve host name (3 names; latency 0/1us or symbolic 1ns..1s; 1-2 addresses or host_not_found), resolve IPv4 literal, resolve IPv6 literal, cancel(), '
-                        'cancel() from inside the next completion handler} issued at symbolic instants (gap 0 or 1ns..300ms) on a TCP resolver (K=3) and a UDP resolver (K=2); services 80/0/65535 on the first resolve',
+                        'cancel() from inside the next completion handler} issued at symbolic instants (gap 0 or 1ns..300ms) on a TCP resolver (K=3) and a UDP resolver (K=2); services 80/0/65535 on the first resolve; '
+                        'preset EARLY: the driving timer is armed for a symbolic instant before a host-name lookup is started, then K=2 operations (so that the operations can run in the instant the lookup is due, ahead of the resolver\'s own timer completion)',
                'thorough': 'K=4'},
     'outside': ['longer sequences', 'moved resolvers'],
     'assumptions': [],
@@ -210,10 +212,10 @@ CHECKS['C12'] = {
 }
 
 CHECKS['C19'] = {
-    'jobs': {'quick': [J('c19_pcap.cpp', ['LEN=5'], wall=200, markers=(1, 2))],
-             'thorough': [J('c19_pcap.cpp', ['LEN=8'], wall=700, markers=(1, 2))]},
+    'jobs': {'quick': [J('c19_pcap.cpp', ['LEN=5'], wall=200, markers=(1, 2, 3))],
+             'thorough': [J('c19_pcap.cpp', ['LEN=8'], wall=700, markers=(1, 2, 3))]},
     'bounds': {'quick': '1-2 UDP datagrams (1-3 symbolic bytes, both directions) and one TCP connection carrying 5 symbolic bytes in segments of 4 and 1 bytes with each of the first two segments passed or dropped (retransmissions of first and non-first segments), then closed; '
-                        'network latency 1 ms, 1.5 s or 4295 s (timestamps across a second boundary and beyond 2^32 microseconds); the capture is re-read by an independent parser: file header, one record per probe-observed transmission in order, timestamps, lengths, '
+                        'node A directly on the network or behind a NAT placed in front of the dropping hop; network latency 1 ms, 1.5 s or 4295 s (timestamps across a second boundary and beyond 2^32 microseconds); the capture is re-read by an independent parser: file header, one record per probe-observed transmission in order, timestamps, lengths, '
                         'IPv4/UDP/TCP header fields, sequence numbers, payload bytes',
                'thorough': '8 TCP bytes'},
     'outside': ['IPv6 traffic (the property is about IPv4)', 'several connections', 'more records than ~12'],
@@ -232,11 +234,13 @@ CHECKS['C16'] = {
 }
 
 CHECKS['C18'] = {
-    'jobs': {'quick': [J('c18_proxy.cpp', [], wall=280, markers=(1, 2, 3), opts={'max_instr': 30000000})],
-             'thorough': [J('c18_proxy.cpp', [], wall=700, markers=(1, 2, 3), opts={'max_instr': 30000000})]},
-    'bounds': {'quick': 'one request of 8 kinds (literal host:port; a path and query containing colons; named host resolved through the simulated resolver, other method, query; unresolvable name; refused port; default port 80 with nobody listening; '
+    'jobs': {'quick': [J('c18_proxy.cpp', [], wall=280, markers=(1, 2, 3), opts={'max_instr': 30000000}),
+                       J('c18_proxy.cpp', ['SMALLMTU'], wall=280, markers=(1, 2, 3), opts={'max_instr': 40000000})],
+             'thorough': [J('c18_proxy.cpp', [], wall=700, markers=(1, 2, 3), opts={'max_instr': 30000000}),
+                          J('c18_proxy.cpp', ['SMALLMTU'], wall=700, markers=(1, 2, 3), opts={'max_instr': 40000000})]},
+    'bounds': {'quick': 'one request of 9 kinds (named host with a five-digit port; literal host:port; a path and query containing colons; named host resolved through the simulated resolver, other method, query; unresolvable name; refused port; default port 80 with nobody listening; '
                         'relative URI; literal with extra header and Host) or two pipelined requests to the same origin (3 pairs); the byte stream cut into up to 3 writes at 5 candidate positions, back to back or 10 ms apart; '
-                        'the origin (in the harness) records what it receives and answers distinct fixed responses; then a second client (whose origin must see exactly its own request), then stop() and a refused connect',
+                        'the origin (in the harness) records what it receives and answers distinct fixed responses; then a second client (whose origin must see exactly its own request), then stop() and a refused connect; the whole space once with the default path MTU and once with a path MTU of 16 bytes (several segments and congestion windows per message: partial writes)',
                'thorough': 'same space (exhaustive already)'},
     'outside': ['IPv6 literals', 'requests to different origins on one client connection (unsupported by the proxy: TODO in the source)', 'large bodies'],
     'assumptions': ['printf/formatting is stubbed'],
@@ -244,14 +248,21 @@ CHECKS['C18'] = {
 
 CHECKS['C17'] = {
     'jobs': {'quick': [J('c17_socks.cpp', ['MODE=0'], wall=200, markers=(1, 2, 3), opts={'max_instr': 30000000}),
-                       J('c17_socks.cpp', ['MODE=1', 'SMALL'], wall=280, markers=(1, 2), opts={'max_instr': 30000000})],
+                       J('c17_socks.cpp', ['MODE=1', 'SMALL'], wall=280, markers=(1, 2), opts={'max_instr': 30000000}),
+                       J('c17_socks.cpp', ['MODE=2'], wall=250, markers=(1, 2, 3), opts={'max_instr': 30000000}),
+                       J('c17_socks.cpp', ['MODE=3', 'SMALL'], wall=280, markers=(1, 2, 3), opts={'max_instr': 30000000})],
              'thorough': [J('c17_socks.cpp', ['MODE=0'], wall=600, markers=(1, 2, 3), opts={'max_instr': 30000000}),
-                          J('c17_socks.cpp', ['MODE=1'], wall=700, markers=(1, 2), opts={'max_instr': 30000000})]},
+                          J('c17_socks.cpp', ['MODE=1'], wall=700, markers=(1, 2), opts={'max_instr': 30000000}),
+                          J('c17_socks.cpp', ['MODE=2'], wall=600, markers=(1, 2, 3), opts={'max_instr': 30000000}),
+                          J('c17_socks.cpp', ['MODE=3'], wall=700, markers=(1, 2, 3), opts={'max_instr': 30000000})]},
     'bounds': {'quick': 'valid: v5 CONNECT by IPv4 / by host name (also a 200-character name) and v4 CONNECT to a reachable, refusing or unresolvable target, one case where the target answers with 4 kB (more than a congestion window), 4 symbolic payload bytes relayed and answered (xor 0x55) by the target, request and payload each cut in up to 2 writes; '
                         'reply codes and command counters checked. malformed: SOCKS4 or 5 server, every negotiation byte symbolic (version, method count from {0,1,2,255}, methods, 9/10 request bytes; in the quick tier: SOCKS5 only, the 4 bytes the parser branches on symbolic and address/port from a small alphabet), 0 or 4 trailing symbolic bytes (quick; 0/2/4 and 3 cut patterns in thorough), '
-                        'early end-of-file after 40 ms, while a well-behaved client negotiates and exchanges 4 bytes through the same proxy',
+                        'early end-of-file after 40 ms, while a well-behaved client negotiates and exchanges 4 bytes through the same proxy. '
+                        'BIND (v4 and v5; bound to the proxy address or 0.0.0.0; optionally a first client that negotiates BIND for the same port and leaves at once or 3 ms later before any peer connects; peer dials in at once or after 4 ms and may speak first): both replies byte for byte, 4 symbolic bytes relayed and answered, counters. '
+                        'UDP ASSOCIATE (v5; with and without the empty-host-name reply flag; client endpoint declared or learned): 1-2 datagrams with IPv4 or host-name header and 1-2 symbolic payload bytes forwarded header-stripped to a UDP target and its answers wrapped (by address, or by name once the client used the name), '
+                        'optionally preceded by a malformed datagram of 1, 4, 9 or 12 bytes (quick: bytes 0-4 and 10-11 symbolic, bytes 5-9 from two alternatives; thorough: every byte symbolic)',
                'thorough': 'same harness, larger wall budget'},
-    'outside': ['BIND and UDP ASSOCIATE relaying (negotiation bytes for them are covered by the malformed-client mode, their relay loops are not)', 'the over-long read case (needs more than 64 KiB in flight)',
+    'outside': ['BIND by IPv6 address, more than two UDP datagrams, datagrams longer than 64 bytes, fragments', 'the over-long read case (needs more than 64 KiB in flight)',
                 'intra-object overflow of the 64 KiB char buffers (byte arrays are not sub-object checked)'],
     'assumptions': ['printf/formatting is stubbed'],
 }
